@@ -28,6 +28,8 @@ for pc in (0, 1, 2):
 for e in ("IsValidParameterName", "SetToken"):
     GROUPS.append(G("sub_" + e, "harness/C19/h_asmsub.c", "h_" + e, enforce=[], link=[], stubs=["stubs/gerr.c"], unwind=4, timeout=300,
                     dfcc=False, object_bits=12, functions=[e, "CompressLine_NErl"] if e == "IsValidParameterName" else [e]))
+GROUPS.append(G("sub_ChkNames", "harness/C19/h_asmsub.c", "h_ChkNames", enforce=[], link=[], stubs=["stubs/gerr.c"], unwind=6, timeout=300, dfcc=False, object_bits=12,
+                functions=["ChkSymbName", "ChkMacSymbName", "ChkNameUpTo", "ChkSymbNameUpTo", "ChkMacSymbNameUpTo"], bounded="names of 0..3 characters (8-bit character classes; the UTF-8 branch is not explored)"))
 GROUPS.append(G("sub_CompressLine_short", "harness/C19/h_asmsub.c", "h_CompressLine_short", enforce=[], link=[], stubs=["stubs/gerr.c"], unwind=16, timeout=600,
                 dfcc=False, object_bits=12, functions=["CompressLine", "ReplaceLine", "ReplaceToken", "IsValidParameterName"],
                 bounded="lines of at most 6 characters without backslash, one-letter parameter name, case-sensitive"))
